@@ -21,8 +21,9 @@ ASSUMPTIONS = [
 @st.composite
 def s_det(draw):
     n = draw(st.one_of(st.integers(1, 40), st.sampled_from([32, 64, 100, 257, 1024, 4096])))
-    x = draw(s_signal(n=n, cls="O", dts=("c", "c", "f"), fams=["gauss", "unif", "const", "smallint"]))
-    return {"x": x, "gv": draw(s_gv(sps_max=32, with_extra=True)), "G": draw(st.one_of(st.floats(0, 40), st.sampled_from([0.0, 20.0, 40.0]))),
+    x = draw(s_signal(n=n, cls="O", dts=("c", "c", "f", "i"), fams=["gauss", "unif", "const", "smallint"]))
+    x["nscale"] = draw(st.sampled_from([1.0, 1.0, 1e-9, 1e-12]))      # a genuine noise component far below any "is it zero?" tolerance
+    return {"x": x, "fs_ratio": draw(st.sampled_from([0.5, 2.0, 4.0])), "gv": draw(s_gv(sps_max=32, with_extra=True)), "G": draw(st.one_of(st.floats(0, 40), st.sampled_from([0.0, 20.0, 40.0]))),
             "NF": draw(st.floats(3, 10)), "bw": draw(st.one_of(st.none(), st.floats(0.02, 0.45))), "seed": draw(st.integers(0, 2 ** 31 - 1))}
 
 
@@ -34,6 +35,12 @@ def e_det(c):
     reset()
     sps, R, fs = apply_gv(c["gv"])
     x, m = build(c["x"])
+    if m.n is not None and c["x"].get("nscale", 1.0) != 1.0:
+        from ..sigs import Model
+        nn_ = m.n.astype(np.result_type(m.n, float)) * c["x"]["nscale"]
+        rt_ = np.result_type(m.s, nn_)
+        m = Model(m.cls, m.npol, m.s.astype(rt_), nn_.astype(rt_))
+        x = optical_signal(m.s.copy(), m.n.copy(), n_pol=m.npol)
     N = m.N
     G, NF = c["G"], c["NF"]
     g = 10 ** (G / 10)
@@ -51,7 +58,7 @@ def e_det(c):
         want[0] = np.sqrt(g) * m.s
     else:
         want[:] = np.sqrt(g) * m.s
-    scale = max(1.0, float(np.max(np.abs(want))))
+    scale = max(float(np.max(np.abs(want))), 1e-300)
     check(np.allclose(A.signal, want, rtol=1e-12, atol=1e-12 * scale), "edfa-signal!=sqrt(G)*input", f"G={G} dB n_pol={m.npol}: max err {np.max(np.abs(A.signal - want)):.3e}")
     if m.npol == 1:
         check(not np.any(A.signal[1]), "edfa-y-polarisation-carries-signal", "")
@@ -67,7 +74,7 @@ def e_det(c):
             wn[0] = np.sqrt(g) * m.n
         else:
             wn[:] = np.sqrt(g) * m.n
-    nscale = max(1.0, float(np.max(np.abs(wn))), float(np.max(np.abs(B.noise))))
+    nscale = max(float(np.max(np.abs(wn))), float(np.max(np.abs(B.noise))), 1e-300)
     check(np.allclose(amplified, wn, rtol=1e-9, atol=1e-9 * nscale), "edfa-input-noise-not-amplified-by-sqrt(G)",
           f"G={G} dB n_pol={m.npol}: (A.noise-ASE) max {np.max(np.abs(amplified)):.3e}, expected sqrt(G)*in.noise max {np.max(np.abs(wn)):.3e}")
     # exact ASE scale (conditional clause): IF the ASE realisation is proportional to the unit Gaussians that numpy's global generator
@@ -90,8 +97,13 @@ def e_det(c):
     if G > 0.5:
         A2 = lib(D.EDFA, x, G, NF)
         check(not np.array_equal(A2.noise, A.noise), "edfa-ase-not-fresh", "")
-    # bandwidth argument == BPF applied afterwards (same seed)
+    # bandwidth argument: the whole output (signal and noise) is band-limited by the optical filter - compared with the library's own BPF
+    # applied afterwards AND with a harness-side reference filter (scipy Bessel, cutoff BW/2, zero phase) for the sampling rate in force
     if c["bw"] is not None and N >= 32:
+        import scipy.signal as sg
+
+        def ref_filter(v, bw, fs_):
+            return sg.sosfiltfilt(sg.bessel(4, bw / 2, "low", fs=fs_, output="sos", norm="mag"), v, axis=-1)
         BW = c["bw"] * fs
         np.random.seed(c["seed"])
         F = lib(D.EDFA, x, G, NF, BW)
@@ -99,6 +111,20 @@ def e_det(c):
         ref = lib(D.BPF, A, BW)
         check(np.allclose(F.signal, ref.signal, rtol=1e-12, atol=1e-12 * scale) and np.allclose(F.noise, ref.noise, rtol=1e-12, atol=1e-12 * nscale),
               "edfa(BW)!=BPF(edfa)", "")
+        check(np.allclose(F.signal, ref_filter(A.signal, BW, fs), rtol=1e-9, atol=1e-9 * scale) and np.allclose(F.noise, ref_filter(A.noise, BW, fs), rtol=1e-9, atol=1e-9 * nscale),
+              "edfa(BW)-not-band-limited-by-the-optical-filter", f"BW={BW:.4g} fs={fs:.4g}")
+        # the same bandwidth after the sampling rate was re-configured in this process
+        fs2 = fs * c["fs_ratio"]
+        if 0.02 * fs2 <= BW <= 0.45 * fs2:
+            gv(sps=gv.sps, fs=fs2, wavelength=gv.wavelength)
+            np.random.seed(c["seed"])
+            A2 = lib(D.EDFA, x, G, NF)
+            np.random.seed(c["seed"])
+            F2 = lib(D.EDFA, x, G, NF, BW)
+            s2, n2 = max(float(np.max(np.abs(A2.signal))), 1e-300), max(float(np.max(np.abs(A2.noise))), 1e-300)
+            check(np.allclose(F2.signal, ref_filter(A2.signal, BW, fs2), rtol=1e-9, atol=1e-9 * s2) and np.allclose(F2.noise, ref_filter(A2.noise, BW, fs2), rtol=1e-9, atol=1e-9 * n2),
+                  "edfa(BW)-filter-uses-stale-sampling-rate", f"BW={BW:.4g}: fs {fs:.4g} -> {fs2:.4g}")
+            gv(sps=gv.sps, fs=fs, wavelength=gv.wavelength)
     guard.verify()
     guard.no_alias([("EDFA.signal", A.signal), ("EDFA.noise", A.noise)])
     guard.release()
